@@ -1,0 +1,46 @@
+//go:build verif
+
+// Contracts for package genql, read by the verification tooling only.
+// This file holds comments and nothing else; it is compiled only with -tags verif.
+package genql
+
+// ---------------------------------------------------------------------------
+// plsql.go: the pipeline
+
+//@ func (*Query).exec$1
+//@   modifies cell(any) at err
+//@   ensures noop[C05,C19,C10]: !panicking() ==> *err == old(*err)
+
+//@ func (*Query).exec
+//@   requires q: query != nil
+//@   requires opts: query.options != nil
+//@   requires wf: query.limitDefinition >= -1 && query.offsetDefinition >= -1
+//@   safety[C05] at rs[offset:]
+//@   ensures window.len[C05]: err == nil && !old(query.dual) ==> called(ExecOrderBy) && typeis(result, []any) &&
+//@     | len(result.([]any)) == min(ite(old(query.limitDefinition) == -1, len(callresult(ExecOrderBy, 0)), old(query.limitDefinition)),
+//@     |     len(callresult(ExecOrderBy, 0)) - min(ite(old(query.offsetDefinition) == -1, 0, old(query.offsetDefinition)), len(callresult(ExecOrderBy, 0))))
+//@   ensures window.pos[C05]: err == nil && !old(query.dual) && len(result.([]any)) > 0 ==>
+//@     | ref(result.([]any)) == ref(callresult(ExecOrderBy, 0)) &&
+//@     | off(result.([]any)) == off(callresult(ExecOrderBy, 0)) + ite(old(query.offsetDefinition) == -1, 0, old(query.offsetDefinition))
+//@   ensures window.no-error[C05]: called(ExecOrderBy) && callresult(ExecOrderBy, 1) == nil ==> err == nil
+//@   at-call (*Query).exec assert nested.from[C08]: copy.from == current
+//@   at-call (*Query).exec assert nested.same-query[C08]: copy.whereDefinition == query.whereDefinition &&
+//@     | copy.selectDefinition == query.selectDefinition && copy.data == query.data && copy.options == query.options &&
+//@     | copy.groupDefinition == query.groupDefinition && copy.havingDefinition == query.havingDefinition &&
+//@     | copy.orderByDefinition == query.orderByDefinition && copy.limitDefinition == old(query.limitDefinition) &&
+//@     | copy.offsetDefinition == old(query.offsetDefinition)
+
+//@ func CopyQuery
+//@   requires q: query != nil
+//@   safety[C08]
+//@   ensures data[C08]: result.data == query.data
+//@   ensures from[C08]: result.from == query.from
+//@   ensures where[C08]: result.whereDefinition == query.whereDefinition
+//@   ensures having[C08]: result.havingDefinition == query.havingDefinition
+//@   ensures select[C08]: result.selectDefinition == query.selectDefinition
+//@   ensures group[C08]: result.groupDefinition == query.groupDefinition
+//@   ensures order[C08]: result.orderByDefinition == query.orderByDefinition
+//@   ensures limit[C08,C05]: result.limitDefinition == old(query.limitDefinition) && result.offsetDefinition == old(query.offsetDefinition)
+//@   ensures options[C08]: result.options == query.options
+//@   ensures fresh[C08,C13]: fresh(result) && result != nil
+//@   modifies nothing
